@@ -15,6 +15,10 @@ TS = ns.BaseTaskState
 
 
 def norm(v):
+    import enum
+    if isinstance(v, enum.Enum):
+        # an enum member and a plain number of the same value are NOT the same restored value
+        return "<%s.%s>" % (type(v).__name__, v.name)
     if isinstance(v, (list, tuple)):
         return [norm(x) for x in v]
     if isinstance(v, dict):
